@@ -233,7 +233,7 @@ def run_file_base(seed_i, tier, part):
         scn = dict(base, file_faults=fl, reader=reader)
         _, out = corrupt.run_file(scn, img)
         _count(part, out, faults.fault_class(fl), img != image, img, reader)
-        if out.kind == "rc" and out.rc == -1:
+        if out.kind == "rc" and "error" in (out.stdout or "").lower():
             part["counters"]["probe:tool_printed_diagnostics"] += 1
         h.update(f"{out.kind},{out.exc_type},{out.steps};".encode())
         for v in judge_file_outcome(out, reader):
@@ -247,7 +247,7 @@ def run_file_base(seed_i, tier, part):
         img, _ = corrupt.file_image(scn)
         _, out = corrupt.run_file(scn, img)
         _count(part, out, "rec:" + faults.fault_class(rf[0]["faults"]), img != image, img, reader)
-        if out.kind == "rc" and out.rc == -1:
+        if out.kind == "rc" and "error" in (out.stdout or "").lower():
             part["counters"]["probe:tool_printed_diagnostics"] += 1
         h.update(f"{out.kind},{out.exc_type},{out.steps};".encode())
         for v in judge_file_outcome(out, reader):
